@@ -1,7 +1,8 @@
 """Regenerate every Gen/* Lean file from /repo (used by MANIFEST.setup_cmd before the first lake build)."""
-from tools.translate import gen_panel, gen_conn
+from tools.translate import gen_panel, gen_conn, gen_field
 
 if __name__ == '__main__':
     gen_panel.translate_all()
     gen_conn.translate_all()
+    gen_field.translate_all()
     print('generated')
